@@ -66,4 +66,409 @@ theorem W_nodeStep (nb : Dict (Dict Rat)) {n1 n2 new node : Nat} (hnode : node =
     by_cases hxd : x = node <;> by_cases hxn : x = new <;> by_cases hyn : y = new <;> by_cases hyd : y = node <;>
     simp_all
 
+
+theorem K_nodeStep (nb : Dict (Dict Rat)) {n1 n2 new node : Nat} (hnode : node = n1 ∨ node = n2)
+    (h12 : n1 ≠ n2) (h4 : new ≠ n1) (h5 : new ≠ n2) (hrn : RowsNodup nb) (hfresh : K nb node new = false)
+    (hnn : K nb new new = true) (x y : Nat) :
+    K (nodeStep n1 n2 new [n1, n2] nb node) x y =
+      if x = node then false
+      else if (x = new ∧ (K nb node y = true ∧ y ≠ n1 ∧ y ≠ n2)) ∨
+          (y = new ∧ (K nb node x = true ∧ x ≠ n1 ∧ x ≠ n2)) then true
+      else if y = node ∧ (K nb node x = true ∧ x ≠ n1 ∧ x ≠ n2) then false
+      else K nb x y := by
+  have hnew : new ≠ node := by rcases hnode with e | e <;> (rw [e]; assumption)
+  have hnd : ((row nb node).keys.filter fun k => k != n1 && k != n2).Nodup := (hrn node).filter _
+  have hmem : ∀ c ∈ (row nb node).keys.filter (fun k => k != n1 && k != n2), c ≠ node ∧ c ≠ new := by
+    intro c hc
+    obtain ⟨hk, hc1, hc2⟩ := (mem_others nb node n1 n2 c).mp hc
+    refine ⟨by rcases hnode with e | e <;> (rw [e]; assumption), ?_⟩
+    intro e; rw [e, hfresh] at hk; cases hk
+  have hnn1 : K (List.foldl (otherStep node new) nb
+      ((row nb node).keys.filter fun k => k != n1 && k != n2)) new new = true := by
+    rw [K_otherFold hnew _ nb hnd hmem]
+    have hno : new ∉ (row nb node).keys.filter (fun k => k != n1 && k != n2) := fun hm => (hmem new hm).2 rfl
+    simp only [hno, and_false, or_self, if_false, false_and, Bool.false_eq_true]
+    exact hnn
+  unfold nodeStep
+  simp only [K_erase, List.foldl_cons, List.foldl_nil]
+  rw [K_selfStep _ _ _ _ (by rw [K_selfStep _ _ _ _ hnn1]; exact hnn1), K_selfStep _ _ _ _ hnn1]
+  simp only [K_otherFold hnew _ nb hnd hmem, mem_others]
+  have hnew' := Ne.symm hnew
+  have h4' := Ne.symm h4
+  have h5' := Ne.symm h5
+  have h12' := Ne.symm h12
+  clear hmem hnd hrn hnn1
+  rcases hnode with e | e <;> subst e <;>
+    by_cases hxd : x = node <;> by_cases hxn : x = new <;> by_cases hyn : y = new <;> by_cases hyd : y = node <;>
+    simp_all
+
+
+/-! ### the whole merge -/
+
+/-- the state after `neighbors[new] = {new: 0}` and the loop over the common neighbours -/
+theorem common_stage (nb : Dict (Dict Rat)) {n1 n2 new : Nat} (h4 : new ≠ n1) (h5 : new ≠ n2)
+    (hrn : RowsNodup nb) (hfr : ∀ x, K nb x new = false) :
+    let nb0 := nb.set new [(new, (0 : Rat))]
+    let cs := (row nb0 n1).keys.filter fun k => (row nb0 n2).keys.contains k && k != n1 && k != n2
+    let nb1 := cs.foldl (commonStep n1 n2 new) nb0
+    RowsNodup nb1 ∧
+    (∀ x y, getEntry nb1 x y =
+      if x = new ∧ (K nb n1 y = true ∧ K nb n2 y = true ∧ y ≠ n1 ∧ y ≠ n2) then getEntry nb n1 y + getEntry nb n2 y
+      else if y = new ∧ (K nb n1 x = true ∧ K nb n2 x = true ∧ x ≠ n1 ∧ x ≠ n2) then getEntry nb x n1 + getEntry nb x n2
+      else if (x = n1 ∨ x = n2) ∧ (K nb n1 y = true ∧ K nb n2 y = true ∧ y ≠ n1 ∧ y ≠ n2) then 0
+      else if (y = n1 ∨ y = n2) ∧ (K nb n1 x = true ∧ K nb n2 x = true ∧ x ≠ n1 ∧ x ≠ n2) then 0
+      else if x = new then 0 else getEntry nb x y) ∧
+    (∀ x y, K nb1 x y =
+      if (x = new ∧ (K nb n1 y = true ∧ K nb n2 y = true ∧ y ≠ n1 ∧ y ≠ n2)) ∨
+          (y = new ∧ (K nb n1 x = true ∧ K nb n2 x = true ∧ x ≠ n1 ∧ x ≠ n2)) then true
+      else if ((x = n1 ∨ x = n2) ∧ (K nb n1 y = true ∧ K nb n2 y = true ∧ y ≠ n1 ∧ y ≠ n2)) ∨
+          ((y = n1 ∨ y = n2) ∧ (K nb n1 x = true ∧ K nb n2 x = true ∧ x ≠ n1 ∧ x ≠ n2)) then false
+      else if x = new then decide (y = new) else K nb x y) := by
+  intro nb0 cs nb1
+  let C := fun z => K nb n1 z = true ∧ K nb n2 z = true ∧ z ≠ n1 ∧ z ≠ n2
+  have hrow : ∀ z, z ≠ new → row nb0 z = row nb z := by
+    intro z hz; show row (nb.set new _) z = _; rw [row_set]; simp [hz]
+  have hW0 : ∀ x y, getEntry nb0 x y = if x = new then 0 else getEntry nb x y := by
+    intro x y
+    show getEntry (nb.set new _) x y = _
+    unfold getEntry
+    rw [row_set]
+    by_cases hx : x = new
+    · simp only [hx, if_true, Dict.get?_cons, Dict.get?_nil]
+      split <;> rfl
+    · simp [hx]
+  have hK0 : ∀ x y, K nb0 x y = if x = new then decide (y = new) else K nb x y := by
+    intro x y
+    show K (nb.set new _) x y = _
+    unfold K Dict.contains
+    rw [row_set]
+    by_cases hx : x = new
+    · simp only [hx, if_true, Dict.get?_cons, Dict.get?_nil]
+      by_cases hy : new = y
+      · simp [hy]
+      · have : ¬ y = new := fun e => hy e.symm
+        simp [hy, this]
+    · simp [hx]
+  have hmem : ∀ z, z ∈ cs ↔ C z := by
+    intro z
+    show z ∈ (row nb0 n1).keys.filter _ ↔ _
+    rw [List.mem_filter, hrow n1 (Ne.symm h4), hrow n2 (Ne.symm h5), mem_keys_row_iff]
+    simp only [Bool.and_eq_true, List.contains_iff_mem, mem_keys_row_iff, bne_iff_ne, ne_eq]
+    constructor
+    · rintro ⟨a, ⟨b, c⟩, d⟩; exact ⟨a, b, c, d⟩
+    · rintro ⟨a, b, c, d⟩; exact ⟨a, ⟨b, c⟩, d⟩
+  have hnd : cs.Nodup := by
+    show ((row nb0 n1).keys.filter _).Nodup
+    rw [hrow n1 (Ne.symm h4)]; exact (hrn n1).filter _
+  have hcs : ∀ c ∈ cs, c ≠ n1 ∧ c ≠ n2 ∧ c ≠ new := by
+    intro c hc
+    obtain ⟨a, b, c1, c2⟩ := (hmem c).mp hc
+    refine ⟨c1, c2, ?_⟩
+    intro e; rw [e, hfr] at a; cases a
+  have hrn0 : RowsNodup nb0 := by
+    intro z
+    show (row (nb.set new _) z).keys.Nodup
+    rw [row_set]
+    split
+    · simp [Dict.keys]
+    · exact hrn z
+  refine ⟨rowsNodup_foldl _ (fun nb b hb => rowsNodup_commonStep hb _ _ _ _) _ _ hrn0, ?_, ?_⟩
+  · intro x y
+    show getEntry (cs.foldl _ nb0) x y = _
+    rw [W_commonFold h4 h5 cs nb0 hnd hcs]
+    simp only [hmem, hW0, Ne.symm h4, Ne.symm h5, if_false]
+    show _ = if x = new ∧ C y then _ else if y = new ∧ C x then _ else if (x = n1 ∨ x = n2) ∧ C y then _
+      else if (y = n1 ∨ y = n2) ∧ C x then _ else _
+    by_cases hCx : C x
+    · have : x ≠ new := fun e => by
+        rw [e] at hCx
+        have h1 : K nb n1 new = true := hCx.1
+        rw [hfr] at h1; cases h1
+      simp [hCx, this]
+    · simp [hCx]
+  · intro x y
+    show K (cs.foldl _ nb0) x y = _
+    rw [K_commonFold h4 h5 cs nb0 hnd hcs]
+    simp only [hmem, hK0]
+    rfl
+
+
+/-- the state after the common neighbours and the first node (`node1`) have been processed -/
+theorem stage2 (nb : Dict (Dict Rat)) {n1 n2 new : Nat} (h12 : n1 ≠ n2) (h4 : new ≠ n1) (h5 : new ≠ n2)
+    (hrn : RowsNodup nb) (hfr : ∀ x, K nb x new = false) (hsym : ∀ x y, K nb x y = K nb y x)
+    (nb1 : Dict (Dict Rat)) (hrn1 : RowsNodup nb1)
+    (hW1 : ∀ x y, getEntry nb1 x y =
+      if x = new ∧ (K nb n1 y = true ∧ K nb n2 y = true ∧ y ≠ n1 ∧ y ≠ n2) then getEntry nb n1 y + getEntry nb n2 y
+      else if y = new ∧ (K nb n1 x = true ∧ K nb n2 x = true ∧ x ≠ n1 ∧ x ≠ n2) then getEntry nb x n1 + getEntry nb x n2
+      else if (x = n1 ∨ x = n2) ∧ (K nb n1 y = true ∧ K nb n2 y = true ∧ y ≠ n1 ∧ y ≠ n2) then 0
+      else if (y = n1 ∨ y = n2) ∧ (K nb n1 x = true ∧ K nb n2 x = true ∧ x ≠ n1 ∧ x ≠ n2) then 0
+      else if x = new then 0 else getEntry nb x y)
+    (hK1 : ∀ x y, K nb1 x y =
+      if (x = new ∧ (K nb n1 y = true ∧ K nb n2 y = true ∧ y ≠ n1 ∧ y ≠ n2)) ∨
+          (y = new ∧ (K nb n1 x = true ∧ K nb n2 x = true ∧ x ≠ n1 ∧ x ≠ n2)) then true
+      else if ((x = n1 ∨ x = n2) ∧ (K nb n1 y = true ∧ K nb n2 y = true ∧ y ≠ n1 ∧ y ≠ n2)) ∨
+          ((y = n1 ∨ y = n2) ∧ (K nb n1 x = true ∧ K nb n2 x = true ∧ x ≠ n1 ∧ x ≠ n2)) then false
+      else if x = new then decide (y = new) else K nb x y) :
+    RowsNodup (nodeStep n1 n2 new [n1, n2] nb1 n1) ∧
+    (∀ x y, getEntry (nodeStep n1 n2 new [n1, n2] nb1 n1) x y =
+      if x = n1 then 0
+      else if x = new then
+        (if y = new then 0 + getEntry nb n1 n1 + getEntry nb n1 n2
+         else if K nb n1 y = true ∧ y ≠ n1 ∧ y ≠ n2 then
+           (if K nb n2 y = true then getEntry nb n1 y + getEntry nb n2 y else getEntry nb n1 y)
+         else 0)
+      else if y = new then
+        (if K nb n1 x = true ∧ x ≠ n1 ∧ x ≠ n2 then
+           (if K nb n2 x = true then getEntry nb x n1 + getEntry nb x n2 else getEntry nb x n1)
+         else 0)
+      else if y = n1 then (if x = n2 then getEntry nb n2 n1 else 0)
+      else if x = n2 then
+        (if K nb n1 y = true ∧ K nb n2 y = true ∧ y ≠ n1 ∧ y ≠ n2 then 0 else getEntry nb n2 y)
+      else if y = n2 then
+        (if K nb n1 x = true ∧ K nb n2 x = true ∧ x ≠ n1 ∧ x ≠ n2 then 0 else getEntry nb x n2)
+      else getEntry nb x y) ∧
+    (∀ x y, K (nodeStep n1 n2 new [n1, n2] nb1 n1) x y =
+      if x = n1 then false
+      else if x = new then (decide (y = new) || (K nb n1 y && decide (y ≠ n1) && decide (y ≠ n2)))
+      else if y = new then (K nb n1 x && decide (x ≠ n1) && decide (x ≠ n2))
+      else if y = n1 then (if x = n2 then K nb n2 n1 else false)
+      else if x = n2 then
+        (if K nb n1 y = true ∧ K nb n2 y = true ∧ y ≠ n1 ∧ y ≠ n2 then false else K nb n2 y)
+      else if y = n2 then
+        (if K nb n1 x = true ∧ K nb n2 x = true ∧ x ≠ n1 ∧ x ≠ n2 then false else K nb x n2)
+      else K nb x y) := by
+  have hC1 : ¬ (K nb n1 n1 = true ∧ K nb n2 n1 = true ∧ n1 ≠ n1 ∧ n1 ≠ n2) := fun h => h.2.2.1 rfl
+  have hCn : ¬ (K nb n1 new = true ∧ K nb n2 new = true ∧ new ≠ n1 ∧ new ≠ n2) := by rw [hfr]; simp
+  have h4' := Ne.symm h4
+  have h5' := Ne.symm h5
+  have h12' := Ne.symm h12
+  have hf1 : K nb1 n1 new = false := by rw [hK1]; simp [h4', hC1, hCn, hfr]
+  have hnn1 : K nb1 new new = true := by rw [hK1]; simp [hCn]
+  have hK2 := K_nodeStep nb1 (Or.inl rfl) h12 h4 h5 hrn1 hf1 hnn1
+  have hW2 := W_nodeStep nb1 (node := n1) (Or.inl rfl) h12 h4 h5 hrn1 hf1
+  have z1 : ∀ z, ¬ K nb n1 z = true → getEntry nb n1 z = 0 := fun z h => getEntry_of_not_K (by simpa using h)
+  have z3 : ∀ z, ¬ K nb n1 z = true → getEntry nb z n1 = 0 := fun z h =>
+    getEntry_of_not_K (by rw [hsym]; simpa using h)
+  have z5 : ∀ z, getEntry nb z new = 0 := fun z => getEntry_of_not_K (hfr z)
+  have s1 : ∀ z, z ≠ n1 → z ≠ n2 → K nb z n1 = K nb n1 z := fun z _ _ => hsym z n1
+  refine ⟨rowsNodup_nodeStep hrn1 n1 n2 new [n1, n2] n1, ?_, ?_⟩
+  · intro x y
+    rw [hW2]
+    simp only [hK1, hW1]
+    clear hK2 hW2 hK1 hW1 hrn hrn1 hsym hf1 hnn1
+    have hx : x = n1 ∨ x = n2 ∨ x = new ∨ (x ≠ n1 ∧ x ≠ n2 ∧ x ≠ new) := by
+      by_cases e1 : x = n1; · exact Or.inl e1
+      by_cases e2 : x = n2; · exact Or.inr (Or.inl e2)
+      by_cases e3 : x = new; · exact Or.inr (Or.inr (Or.inl e3))
+      exact Or.inr (Or.inr (Or.inr ⟨e1, e2, e3⟩))
+    have hy : y = n1 ∨ y = n2 ∨ y = new ∨ (y ≠ n1 ∧ y ≠ n2 ∧ y ≠ new) := by
+      by_cases e1 : y = n1; · exact Or.inl e1
+      by_cases e2 : y = n2; · exact Or.inr (Or.inl e2)
+      by_cases e3 : y = new; · exact Or.inr (Or.inr (Or.inl e3))
+      exact Or.inr (Or.inr (Or.inr ⟨e1, e2, e3⟩))
+    rcases hx with hxe | hxe | hxe | ⟨a1, a2, a3⟩
+    · subst x
+      rcases hy with hye | hye | hye | ⟨b1, b2, b3⟩
+      · subst y; simp_all
+      · subst y; simp_all
+      · subst y; simp_all
+      · by_cases hk1y : K nb n1 y = true <;> by_cases hk2y : K nb n2 y = true <;> simp_all
+    · subst x
+      rcases hy with hye | hye | hye | ⟨b1, b2, b3⟩
+      · subst y; simp_all
+      · subst y; simp_all
+      · subst y; simp_all
+      · by_cases hk1y : K nb n1 y = true <;> by_cases hk2y : K nb n2 y = true <;> simp_all
+    · subst x
+      rcases hy with hye | hye | hye | ⟨b1, b2, b3⟩
+      · subst y; simp_all
+      · subst y; simp_all
+      · subst y; simp_all
+      · by_cases hk1y : K nb n1 y = true <;> by_cases hk2y : K nb n2 y = true <;> simp_all
+    · rcases hy with hye | hye | hye | ⟨b1, b2, b3⟩
+      · subst y
+        by_cases hk1x : K nb n1 x = true <;> by_cases hk2x : K nb n2 x = true <;> simp_all
+      · subst y
+        by_cases hk1x : K nb n1 x = true <;> by_cases hk2x : K nb n2 x = true <;> simp_all
+      · subst y
+        by_cases hk1x : K nb n1 x = true <;> by_cases hk2x : K nb n2 x = true <;> simp_all
+      · by_cases hk1x : K nb n1 x = true <;> by_cases hk2x : K nb n2 x = true <;>
+          by_cases hk1y : K nb n1 y = true <;> by_cases hk2y : K nb n2 y = true <;> simp_all
+  · intro x y
+    rw [hK2]
+    simp only [hK1]
+    clear hK2 hW2 hK1 hW1 hrn hrn1 hsym hf1 hnn1
+    have hx : x = n1 ∨ x = n2 ∨ x = new ∨ (x ≠ n1 ∧ x ≠ n2 ∧ x ≠ new) := by
+      by_cases e1 : x = n1; · exact Or.inl e1
+      by_cases e2 : x = n2; · exact Or.inr (Or.inl e2)
+      by_cases e3 : x = new; · exact Or.inr (Or.inr (Or.inl e3))
+      exact Or.inr (Or.inr (Or.inr ⟨e1, e2, e3⟩))
+    have hy : y = n1 ∨ y = n2 ∨ y = new ∨ (y ≠ n1 ∧ y ≠ n2 ∧ y ≠ new) := by
+      by_cases e1 : y = n1; · exact Or.inl e1
+      by_cases e2 : y = n2; · exact Or.inr (Or.inl e2)
+      by_cases e3 : y = new; · exact Or.inr (Or.inr (Or.inl e3))
+      exact Or.inr (Or.inr (Or.inr ⟨e1, e2, e3⟩))
+    rcases hx with hxe | hxe | hxe | ⟨a1, a2, a3⟩
+    · subst x
+      rcases hy with hye | hye | hye | ⟨b1, b2, b3⟩
+      · subst y; simp_all
+      · subst y; simp_all
+      · subst y; simp_all
+      · by_cases hk1y : K nb n1 y = true <;> by_cases hk2y : K nb n2 y = true <;> simp_all
+    · subst x
+      rcases hy with hye | hye | hye | ⟨b1, b2, b3⟩
+      · subst y; simp_all
+      · subst y; simp_all
+      · subst y; simp_all
+      · by_cases hk1y : K nb n1 y = true <;> by_cases hk2y : K nb n2 y = true <;> simp_all
+    · subst x
+      rcases hy with hye | hye | hye | ⟨b1, b2, b3⟩
+      · subst y; simp_all
+      · subst y; simp_all
+      · subst y; simp_all
+      · by_cases hk1y : K nb n1 y = true <;> by_cases hk2y : K nb n2 y = true <;> simp_all
+    · rcases hy with hye | hye | hye | ⟨b1, b2, b3⟩
+      · subst y
+        by_cases hk1x : K nb n1 x = true <;> by_cases hk2x : K nb n2 x = true <;> simp_all
+      · subst y
+        by_cases hk1x : K nb n1 x = true <;> by_cases hk2x : K nb n2 x = true <;> simp_all
+      · subst y
+        by_cases hk1x : K nb n1 x = true <;> by_cases hk2x : K nb n2 x = true <;> simp_all
+      · by_cases hk1x : K nb n1 x = true <;> by_cases hk2x : K nb n2 x = true <;>
+          by_cases hk1y : K nb n1 y = true <;> by_cases hk2y : K nb n2 y = true <;> simp_all
+
+
+/-- **`AggregateGraph.merge` on the weights and on the stored keys** (`merge_invariant`).  With distinct merged
+    nodes, a fresh id `new`, rows with distinct keys and a symmetric key structure: the rows and columns of `n1`,
+    `n2` disappear, the new node receives their sums, its self-loop collects the four entries among `n1`, `n2`,
+    everything else is unchanged; a key of the new row is stored exactly for the neighbours of `n1` or `n2`. -/
+theorem mergeNb_spec (nb : Dict (Dict Rat)) {n1 n2 new : Nat} (h12 : n1 ≠ n2) (h4 : new ≠ n1) (h5 : new ≠ n2)
+    (hrn : RowsNodup nb) (hfr : ∀ x, K nb x new = false) (hsym : ∀ x y, K nb x y = K nb y x) :
+    RowsNodup (mergeNb nb n1 n2 new) ∧
+    (∀ x y, getEntry (mergeNb nb n1 n2 new) x y =
+      if x = n1 ∨ x = n2 ∨ y = n1 ∨ y = n2 then 0
+      else if x = new ∧ y = new then
+        0 + getEntry nb n1 n1 + getEntry nb n1 n2 + getEntry nb n2 n1 + getEntry nb n2 n2
+      else if x = new then getEntry nb n1 y + getEntry nb n2 y
+      else if y = new then getEntry nb x n1 + getEntry nb x n2
+      else getEntry nb x y) ∧
+    (∀ x y, K (mergeNb nb n1 n2 new) x y =
+      if x = n1 ∨ x = n2 ∨ y = n1 ∨ y = n2 then false
+      else if x = new then (decide (y = new) || K nb n1 y || K nb n2 y)
+      else if y = new then (K nb n1 x || K nb n2 x)
+      else K nb x y) := by
+  obtain ⟨hrn1, hW1, hK1⟩ := common_stage nb h4 h5 hrn hfr
+  generalize hnb1 : (List.foldl (commonStep n1 n2 new) (nb.set new [(new, (0 : Rat))])
+    ((row (nb.set new [(new, (0 : Rat))]) n1).keys.filter fun k =>
+      (row (nb.set new [(new, (0 : Rat))]) n2).keys.contains k && k != n1 && k != n2)) = nb1 at hrn1 hW1 hK1
+  have hunf : mergeNb nb n1 n2 new =
+      nodeStep n1 n2 new [n1, n2] (nodeStep n1 n2 new [n1, n2] nb1 n1) n2 := by
+    unfold mergeNb
+    simp only [h12, if_false, List.foldl_cons, List.foldl_nil]
+    rw [hnb1]
+  rw [hunf]
+  obtain ⟨hrn2, hW2, hK2⟩ := stage2 nb h12 h4 h5 hrn hfr hsym nb1 hrn1 hW1 hK1
+  generalize nodeStep n1 n2 new [n1, n2] nb1 n1 = nb2 at hrn2 hW2 hK2
+  have h4' := Ne.symm h4
+  have h5' := Ne.symm h5
+  have h12' := Ne.symm h12
+  have hf2 : K nb2 n2 new = false := by rw [hK2]; simp [h12', h5']
+  have hnn2 : K nb2 new new = true := by rw [hK2]; simp [h4]
+  have hK3 := K_nodeStep nb2 (Or.inr rfl) h12 h4 h5 hrn2 hf2 hnn2
+  have hW3 := W_nodeStep nb2 (node := n2) (Or.inr rfl) h12 h4 h5 hrn2 hf2
+  have z2 : ∀ z, ¬ K nb n2 z = true → getEntry nb n2 z = 0 := fun z h => getEntry_of_not_K (by simpa using h)
+  have z4 : ∀ z, ¬ K nb n2 z = true → getEntry nb z n2 = 0 := fun z h =>
+    getEntry_of_not_K (by rw [hsym]; simpa using h)
+  have z1 : ∀ z, ¬ K nb n1 z = true → getEntry nb n1 z = 0 := fun z h => getEntry_of_not_K (by simpa using h)
+  have z3 : ∀ z, ¬ K nb n1 z = true → getEntry nb z n1 = 0 := fun z h =>
+    getEntry_of_not_K (by rw [hsym]; simpa using h)
+  have z5 : ∀ z, getEntry nb z new = 0 := fun z => getEntry_of_not_K (hfr z)
+  have s1 : ∀ z, z ≠ n1 → z ≠ n2 → K nb z n1 = K nb n1 z := fun z _ _ => hsym z n1
+  have s2 : ∀ z, z ≠ n1 → z ≠ n2 → K nb z n2 = K nb n2 z := fun z _ _ => hsym z n2
+  refine ⟨rowsNodup_nodeStep hrn2 n1 n2 new [n1, n2] n2, ?_, ?_⟩
+  · intro x y
+    rw [hW3]
+    simp only [hK2, hW2]
+    clear hK3 hW3 hK2 hW2 hK1 hW1 hrn hrn1 hrn2 hsym hf2 hnn2 hunf hnb1
+    have hx : x = n1 ∨ x = n2 ∨ x = new ∨ (x ≠ n1 ∧ x ≠ n2 ∧ x ≠ new) := by
+      by_cases e1 : x = n1; · exact Or.inl e1
+      by_cases e2 : x = n2; · exact Or.inr (Or.inl e2)
+      by_cases e3 : x = new; · exact Or.inr (Or.inr (Or.inl e3))
+      exact Or.inr (Or.inr (Or.inr ⟨e1, e2, e3⟩))
+    have hy : y = n1 ∨ y = n2 ∨ y = new ∨ (y ≠ n1 ∧ y ≠ n2 ∧ y ≠ new) := by
+      by_cases e1 : y = n1; · exact Or.inl e1
+      by_cases e2 : y = n2; · exact Or.inr (Or.inl e2)
+      by_cases e3 : y = new; · exact Or.inr (Or.inr (Or.inl e3))
+      exact Or.inr (Or.inr (Or.inr ⟨e1, e2, e3⟩))
+    rcases hx with hxe | hxe | hxe | ⟨a1, a2, a3⟩
+    · subst x
+      rcases hy with hye | hye | hye | ⟨b1, b2, b3⟩
+      · subst y; simp_all [Rat.add_zero, Rat.zero_add]
+      · subst y; simp_all [Rat.add_zero, Rat.zero_add]
+      · subst y; simp_all [Rat.add_zero, Rat.zero_add]
+      · by_cases hk1y : K nb n1 y = true <;> by_cases hk2y : K nb n2 y = true <;> simp_all [Rat.add_zero, Rat.zero_add]
+    · subst x
+      rcases hy with hye | hye | hye | ⟨b1, b2, b3⟩
+      · subst y; simp_all [Rat.add_zero, Rat.zero_add]
+      · subst y; simp_all [Rat.add_zero, Rat.zero_add]
+      · subst y; simp_all [Rat.add_zero, Rat.zero_add]
+      · by_cases hk1y : K nb n1 y = true <;> by_cases hk2y : K nb n2 y = true <;> simp_all [Rat.add_zero, Rat.zero_add]
+    · subst x
+      rcases hy with hye | hye | hye | ⟨b1, b2, b3⟩
+      · subst y; simp_all [Rat.add_zero, Rat.zero_add]
+      · subst y; simp_all [Rat.add_zero, Rat.zero_add]
+      · subst y; simp_all [Rat.add_zero, Rat.zero_add]
+      · by_cases hk1y : K nb n1 y = true <;> by_cases hk2y : K nb n2 y = true <;> simp_all [Rat.add_zero, Rat.zero_add]
+    · rcases hy with hye | hye | hye | ⟨b1, b2, b3⟩
+      · subst y
+        by_cases hk1x : K nb n1 x = true <;> by_cases hk2x : K nb n2 x = true <;> simp_all [Rat.add_zero, Rat.zero_add]
+      · subst y
+        by_cases hk1x : K nb n1 x = true <;> by_cases hk2x : K nb n2 x = true <;> simp_all [Rat.add_zero, Rat.zero_add]
+      · subst y
+        by_cases hk1x : K nb n1 x = true <;> by_cases hk2x : K nb n2 x = true <;> simp_all [Rat.add_zero, Rat.zero_add]
+      · by_cases hk1x : K nb n1 x = true <;> by_cases hk2x : K nb n2 x = true <;>
+          by_cases hk1y : K nb n1 y = true <;> by_cases hk2y : K nb n2 y = true <;> simp_all [Rat.add_zero, Rat.zero_add]
+  · intro x y
+    rw [hK3]
+    simp only [hK2]
+    clear hK3 hW3 hK2 hW2 hK1 hW1 hrn hrn1 hrn2 hsym hf2 hnn2 hunf hnb1
+    have hx : x = n1 ∨ x = n2 ∨ x = new ∨ (x ≠ n1 ∧ x ≠ n2 ∧ x ≠ new) := by
+      by_cases e1 : x = n1; · exact Or.inl e1
+      by_cases e2 : x = n2; · exact Or.inr (Or.inl e2)
+      by_cases e3 : x = new; · exact Or.inr (Or.inr (Or.inl e3))
+      exact Or.inr (Or.inr (Or.inr ⟨e1, e2, e3⟩))
+    have hy : y = n1 ∨ y = n2 ∨ y = new ∨ (y ≠ n1 ∧ y ≠ n2 ∧ y ≠ new) := by
+      by_cases e1 : y = n1; · exact Or.inl e1
+      by_cases e2 : y = n2; · exact Or.inr (Or.inl e2)
+      by_cases e3 : y = new; · exact Or.inr (Or.inr (Or.inl e3))
+      exact Or.inr (Or.inr (Or.inr ⟨e1, e2, e3⟩))
+    rcases hx with hxe | hxe | hxe | ⟨a1, a2, a3⟩
+    · subst x
+      rcases hy with hye | hye | hye | ⟨b1, b2, b3⟩
+      · subst y; simp_all [Rat.add_zero, Rat.zero_add]
+      · subst y; simp_all [Rat.add_zero, Rat.zero_add]
+      · subst y; simp_all [Rat.add_zero, Rat.zero_add]
+      · by_cases hk1y : K nb n1 y = true <;> by_cases hk2y : K nb n2 y = true <;> simp_all [Rat.add_zero, Rat.zero_add]
+    · subst x
+      rcases hy with hye | hye | hye | ⟨b1, b2, b3⟩
+      · subst y; simp_all [Rat.add_zero, Rat.zero_add]
+      · subst y; simp_all [Rat.add_zero, Rat.zero_add]
+      · subst y; simp_all [Rat.add_zero, Rat.zero_add]
+      · by_cases hk1y : K nb n1 y = true <;> by_cases hk2y : K nb n2 y = true <;> simp_all [Rat.add_zero, Rat.zero_add]
+    · subst x
+      rcases hy with hye | hye | hye | ⟨b1, b2, b3⟩
+      · subst y; simp_all [Rat.add_zero, Rat.zero_add]
+      · subst y; simp_all [Rat.add_zero, Rat.zero_add]
+      · subst y; simp_all [Rat.add_zero, Rat.zero_add]
+      · by_cases hk1y : K nb n1 y = true <;> by_cases hk2y : K nb n2 y = true <;> simp_all [Rat.add_zero, Rat.zero_add]
+    · rcases hy with hye | hye | hye | ⟨b1, b2, b3⟩
+      · subst y
+        by_cases hk1x : K nb n1 x = true <;> by_cases hk2x : K nb n2 x = true <;> simp_all [Rat.add_zero, Rat.zero_add]
+      · subst y
+        by_cases hk1x : K nb n1 x = true <;> by_cases hk2x : K nb n2 x = true <;> simp_all [Rat.add_zero, Rat.zero_add]
+      · subst y
+        by_cases hk1x : K nb n1 x = true <;> by_cases hk2x : K nb n2 x = true <;> simp_all [Rat.add_zero, Rat.zero_add]
+      · by_cases hk1x : K nb n1 x = true <;> by_cases hk2x : K nb n2 x = true <;>
+          by_cases hk1y : K nb n1 y = true <;> by_cases hk2y : K nb n2 y = true <;> simp_all [Rat.add_zero, Rat.zero_add]
+
 end SkNet.Agg
